@@ -135,6 +135,8 @@ func errClass(err string) string {
 		return "bound"
 	case strings.Contains(err, "redelegation to this validator already in progress"):
 		return "transitive"
+	case strings.Contains(err, "not whitelisted") || strings.Contains(err, "alliance asset is not") || strings.Contains(err, "does not exist in alliance whitelist"):
+		return "noasset"
 	case strings.Contains(err, "does not exist") && strings.Contains(err, "validator with address"):
 		return "novalidator"
 	}
